@@ -2,6 +2,7 @@
    Only statements; proofs are in Proofs/. *)
 From Coq Require Import List NArith ZArith Permutation.
 Require Import Base Mol Canon Text Parse Pipeline MolProofs SameMol CanonProofs AstOf RoundTrip2.
+Require ParamsSpec.   (* regenerated source constants still match what the model hard-codes *)
 
 (* (a) For every labelling oracle returning a bijection (H1): parsing the string emitted for a
    molecule m (simple graph, all mass/radical values >= 1) succeeds and yields a graph that is m
